@@ -139,6 +139,12 @@ const (
 
 // assembleSimple encodes contours with a chosen coordinate/flag style.
 func assembleSimple(contours [][]refPoint, instr []byte, style int, pad int) []byte {
+	return assembleSimpleFlags(contours, instr, style, pad, 0)
+}
+
+// assembleSimpleFlags: firstExtra is or-ed into the flag byte of the first point (OVERLAP_SIMPLE, bit 6,
+// is legal there since OpenType 1.8 and carries no coordinate information).
+func assembleSimpleFlags(contours [][]refPoint, instr []byte, style int, pad int, firstExtra byte) []byte {
 	var b []byte
 	n := 0
 	for _, c := range contours {
@@ -172,6 +178,9 @@ func assembleSimple(contours [][]refPoint, instr []byte, style int, pad int) []b
 			}
 			enc(dx, 2, 0x10, &xs)
 			enc(dy, 4, 0x20, &ys)
+			if len(flags) == 0 {
+				f |= firstExtra
+			}
 			flags = append(flags, f)
 			px, py = p.X, p.Y
 		}
@@ -276,10 +285,14 @@ func c11MakeGlyph(c *explore.Ctx, full bool) *c11Spec {
 			instr = []byte{0x4B}
 		}
 		pad := []int{0, 1, 3}[c.Choose(3, "trailing padding")]
-		body := assembleSimple(contours, instr, style, pad)
+		var firstExtra byte
+		if full && nc == 1 && style == 0 && c.Bool("OVERLAP_SIMPLE on the first flag") {
+			firstExtra = 0x40
+		}
+		body := assembleSimpleFlags(contours, instr, style, pad, firstExtra)
 		bb := bboxOf(contours)
 		hdr := []byte{byte(nc >> 8), byte(nc), byte(uint16(bb.LLx) >> 8), byte(bb.LLx), byte(uint16(bb.LLy) >> 8), byte(bb.LLy), byte(uint16(bb.URx) >> 8), byte(bb.URx), byte(uint16(bb.URy) >> 8), byte(bb.URy)}
-		return &c11Spec{desc: fmt.Sprintf("simple contours=%v style=%d pad=%d instr=%d", contours, style, pad, len(instr)), data: append(hdr, body...), contours: contours, instr: instr, simple: true}
+		return &c11Spec{desc: fmt.Sprintf("simple contours=%v style=%d pad=%d instr=%d firstflag|=%#x", contours, style, pad, len(instr), firstExtra), data: append(hdr, body...), contours: contours, instr: instr, simple: true}
 	default: // composite
 		maxComp := 3
 		if !full {
@@ -290,7 +303,11 @@ func c11MakeGlyph(c *explore.Ctx, full bool) *c11Spec {
 		var comps []glyph.ID
 		// none, empty, two bytes (WE_HAVE_INSTRUCTIONS on every record), two bytes with the flag on the
 		// last record only, two bytes with the flag on the first record only
-		withInstr := c.Choose(5, "composite instructions")
+		nInstr := 6 // 5: one instruction byte (odd length)
+		if ncomp == 1 {
+			nInstr = 7 // 6: three instruction bytes
+		}
+		withInstr := c.Choose(nInstr, "composite instructions")
 		flagOn := func(i int) bool {
 			switch withInstr {
 			case 0:
@@ -340,6 +357,12 @@ func c11MakeGlyph(c *explore.Ctx, full bool) *c11Spec {
 		case 2, 3, 4:
 			body = append(body, 0, 2, 0xB0, 0x01)
 			instr = []byte{0xB0, 0x01}
+		case 5:
+			body = append(body, 0, 1, 0x4B)
+			instr = []byte{0x4B}
+		case 6:
+			body = append(body, 0, 3, 0xB0, 0x01, 0x4B)
+			instr = []byte{0xB0, 0x01, 0x4B}
 		}
 		hdr := []byte{0xFF, 0xFF, 0, 0, 0, 0, 1, 0, 2, 0}
 		return &c11Spec{desc: fmt.Sprintf("composite comps=%d instr=%d", ncomp, withInstr), data: append(hdr, body...), comps: comps, instr: instr}
